@@ -453,6 +453,49 @@ Definition run_text_bleu_fn (v : val) : val :=
       end
   | _ => vbad end.
 
+(* ---- V_fixed: the repaired _bleu_score_compute (fixes/bleu-zero-weight.patch) ----
+   geometric_mean = exp(sum(xlogy(weights, precisions))): xlogy(w, p) = w * log p, and 0 where w = 0
+   (unless p is nan): a zero-weighted order is ignored, p^0 = 1.  Everything else -- statistics,
+   validity, brevity penalty, the class's "0.0 when nothing matched" guard -- is unchanged.
+   The definitions above are V_code (the code as it was: 0 * log 0 = nan). *)
+Inductive bvariant := V_code | V_fixed.
+Open Scope Qc_scope.
+Definition bleu_term_v (v : bvariant) (w m p : Qc) : xs :=
+  match v with
+  | V_code => bleu_term w m p
+  | V_fixed => if qeq w 0 then (match qdivx m p with NaN => SNaN | _ => SFin (vq 0) end) else bleu_term w m p
+  end.
+Definition bleu_compute_v (v : bvariant) (ws : list Qc) (il tl : Qc) (ms ps : list Qc) : xr :=
+  let geo := sexp (fold_left sadd (map3 (bleu_term_v v) ws ms ps) (SFin (vq 0))) in
+  rmulx (brevity il tl) geo.
+Definition bleu_of_stats_v (v : bvariant) (c : bcfg) (s : nd) : xr :=
+  bleu_compute_v v (bleu_weights c) (nsc (nget 0 s)) (nsc (nget 3 s)) (nlist (nget 1 s)) (nlist (nget 2 s)).
+Definition bleu_gamma_v (v : bvariant) (c : bcfg) (s : nd) : val :=
+  if qeq (sumQl (nlist (nget 1 s))) 0 then vq 0 else xr_val (bleu_of_stats_v v c s).
+Close Scope Qc_scope.
+Open Scope nat_scope.
+Definition bleu_spec_add_v (v : bvariant) : AddSpec.
+Proof.
+  refine (Build_AddSpec bcfg bbatch val bleu_zero (fun c b => bleu_ok (fst c) b) bleu_beta (bleu_gamma_v v) _ _).
+  - exact (azero_zero bleu_spec_add).
+  - exact (abeta_shape bleu_spec_add).
+Defined.
+Definition bleu_metric_fixed := add_metric (bleu_spec_add_v V_fixed).
+Definition bleu_codec_fixed : Codec bleu_metric_fixed :=
+  add_codec (bleu_spec_add_v V_fixed) dec_bcfg (fun _ => dec_bbatch) (fun _ v => v).
+(* @model text_bleu_fixed run_text_bleu_fixed *)
+Definition run_text_bleu_fixed := run_pool bleu_metric_fixed bleu_codec_fixed.
+Definition run_bleu_fn_v (v : bvariant) (x : val) : val :=
+  match x with
+  | VL [cv; bv] =>
+      match dec_bcfg cv, dec_bbatch bv with
+      | Some c, Some b => if bleu_ok (fst c) b then xr_val (bleu_of_stats_v v c (bleu_beta c b)) else verr "too-short"
+      | _, _ => vbad
+      end
+  | _ => vbad end.
+(* @model text_bleu_fixed_fn run_text_bleu_fixed_fn *)
+Definition run_text_bleu_fixed_fn := run_bleu_fn_v V_fixed.
+
 (* per-sentence statistics, algo and spec (harness: algo-vs-spec stream) *)
 Definition run_bleu_stats_with (matches : nat -> sent -> list sent -> list nat) (v : val) : val :=
   match v with
